@@ -235,6 +235,21 @@ class _MatchToIf(ast.NodeTransformer):
             if any(b for _, b in parts) or any(c is None for c, _ in parts):
                 raise ValueError
             return ast.BoolOp(op=ast.Or(), values=[c for c, _ in parts]), []
+        if isinstance(pat, ast.MatchMapping):
+            # case {"k": x}:  "k" in subject, x = subject["k"]   (a dict subject; extra keys are allowed, as in Python)
+            if pat.rest is not None or not all(isinstance(k_, ast.Constant) for k_ in pat.keys):
+                raise ValueError
+            conds, binds = [], []
+            for k_, q in zip(pat.keys, pat.patterns):
+                conds.append(ast.Compare(left=copy.deepcopy(k_), ops=[ast.In()], comparators=[copy.deepcopy(subj)]))
+                item = ast.Subscript(value=copy.deepcopy(subj), slice=copy.deepcopy(k_), ctx=ast.Load())
+                c_, b_ = self._cond(item, q)
+                if c_ is not None:
+                    conds.append(c_)
+                binds += b_
+            if not conds:
+                return None, binds
+            return (conds[0] if len(conds) == 1 else ast.BoolOp(op=ast.And(), values=conds)), binds
         if isinstance(pat, ast.MatchSequence):
             # case (2, _): on a subject written as a display (a, b): element-wise conditions
             if not isinstance(subj, (ast.Tuple, ast.List)) or len(subj.elts) != len(pat.patterns) or \
@@ -510,6 +525,7 @@ class ModuleInfo:
     classes: Dict[str, ClassInfo] = field(default_factory=dict)
     rebinds: Dict[str, ast.AST] = field(default_factory=dict)  # module-level name = expr
     constants: Dict[str, ast.AST] = field(default_factory=dict)  # module-level NAME = <literal>, bound exactly once
+    dispatch: Dict[str, List["FuncInfo"]] = field(default_factory=dict)  # singledispatch function -> registered implementations
 
 
 # --------------------------------------------------------------------------
@@ -832,6 +848,12 @@ class Program:
         for node in mod.tree.body:
             if isinstance(node, (ast.FunctionDef, ast.AsyncFunctionDef)):
                 fi = self._make_func(node, mod, None)
+                if fi.dispatch_of is not None and fi.dispatch_of in mod.functions and mod.functions[fi.dispatch_of].is_dispatch_base:
+                    # @base.register: an implementation of the module-level singledispatch function `base`
+                    fi.qualname = f"{mod.name}.{fi.dispatch_of}[{fi.dispatch_type or len(mod.dispatch.get(fi.dispatch_of, []))}]"
+                    mod.dispatch.setdefault(fi.dispatch_of, []).append(fi)
+                    self.functions[fi.qualname] = fi
+                    continue
                 # later definitions shadow earlier ones, as at import time
                 mod.functions[fi.name] = fi
                 self.functions[fi.qualname] = fi
@@ -867,7 +889,8 @@ class Program:
                 # from literals and dotted names only, fixed at import
                 fn_ = dotted(val_.func)
                 r_ = self.resolve_name(mod, fn_) if fn_ else None
-                if r_ and r_[0] == "ext" and r_[1] in ("functools.partial", "operator.itemgetter", "operator.attrgetter"):
+                if r_ and r_[0] == "ext" and r_[1] in ("functools.partial", "operator.itemgetter", "operator.attrgetter",
+                                                       "jax.vmap", "jax.jit", "jax.checkpoint"):
                     def plain(a_):
                         if dotted(a_) is not None:
                             return True
@@ -938,7 +961,8 @@ class Program:
                 fi.is_staticmethod = True
             elif dn in ("custom_jvp", "jax.custom_jvp"):
                 fi.is_custom_jvp = True
-            elif dn in ("singledispatchmethod", "functools.singledispatchmethod"):
+            elif dn in ("singledispatchmethod", "functools.singledispatchmethod") or (
+                    cls is None and dn in ("singledispatch", "functools.singledispatch")):
                 fi.is_dispatch_base = True
             elif isinstance(d, ast.Call):
                 fn = dotted(d.func)
